@@ -7,6 +7,7 @@ import (
 	"math"
 	"math/big"
 	"sort"
+	"strconv"
 	"strings"
 
 	"verif/engine/term"
@@ -97,6 +98,15 @@ func ratLit(f float64) (string, error) {
 	}
 	r := new(big.Rat)
 	r.SetFloat64(f)
+	// constants written as short decimals in the source (1e-4, 0.9, 2.5) are read
+	// as that decimal, not as the nearest binary fraction: the real
+	// interpretation is about the formula, and the huge denominators of the
+	// binary fractions slow nlsat down markedly
+	if s := strconv.FormatFloat(f, 'g', -1, 64); len(strings.TrimLeft(strings.Replace(strings.Split(s, "e")[0], ".", "", 1), "-0")) <= 6 {
+		if q, ok := new(big.Rat).SetString(s); ok {
+			r = q
+		}
+	}
 	neg := r.Sign() < 0
 	if neg {
 		r.Neg(r)
